@@ -7,7 +7,7 @@ import re
 
 HERE = os.path.dirname(os.path.dirname(os.path.abspath(__file__)))
 BEGIN, END = "<!-- seeded-table:begin -->", "<!-- seeded-table:end -->"
-ROUND = {"a": 1, "b": 1, "c": 2, "d": 2, "e": 3, "f": 3, "g": 4, "h": 4, "i": 5, "j": 5}
+ROUND = {"a": 1, "b": 1, "c": 2, "d": 2, "e": 3, "f": 3, "g": 4, "h": 4, "i": 5, "j": 5, "k": 6, "l": 6}
 
 
 def main():
@@ -17,7 +17,7 @@ def main():
         m = json.load(open(f"{d}/meta.json"))
         sid = m["id"]
         notes = open(f"{d}/NOTES.md").read() if os.path.exists(f"{d}/NOTES.md") else ""
-        letter = "A" if sid[-1] in "acegi" else "B"
+        letter = "A" if sid[-1] in "acegik" else "B"
         t = re.search(rf"(?m)^## Change {letter}\s*[—:-]+\s*(.*)$", notes)
         title = re.sub(r"`[ab]\.diff`\s*[:—-]*\s*", "", (t.group(1) if t else "")).replace("|", "/").strip(" :—-")[:150]
         caught = ", ".join(m.get("caught_by") or []) or "**not caught**"
@@ -26,8 +26,8 @@ def main():
         s = stats.setdefault(r, [0, 0])
         s[0] += 1
         s[1] += bool(m.get("caught_by"))
-        rows.append(f"| {sid} | {r} | {title} | {caught} | {hist if r == 1 else ''} |")
-    head = "| change | round | what it does (author's title) | caught by (quick tier, current checks) | strengthening it took (round 1) |\n|---|---|---|---|---|\n"
+        rows.append(f"| {sid} | {r} | {title} | {caught} | {hist if (r == 1 or hist.startswith("missed at first")) else ''} |")
+    head = "| change | round | what it does (author's title) | caught by (quick tier, current checks) | strengthening it took (where recorded per change) |\n|---|---|---|---|---|\n"
     summary = "; ".join(f"round {r}: {c} of {n} caught" for r, (n, c) in sorted(stats.items()))
     block = f"{BEGIN}\n\nCurrent state ({summary}):\n\n{head}" + "\n".join(rows) + f"\n\n{END}"
     p = f"{HERE}/DESIGN.md"
